@@ -458,10 +458,12 @@ def compare(case, io, jobs, results, rep):
             if not _ok(B["idx"]):
                 fails.append(("indices-exception", {"impl": B["idx"]}))
         else:
-            for key in ("idx",):
-                got = B[key]
-                if not (got[0] == "exc" and got[1] == parse[0]):
-                    fails.append(("alpha-parse", {"impl": got, "model": parse}))
+            # alpha is only evaluated when there is at least one displayed column
+            got = B["idx"]
+            if len(B["column_order"][1]) > 0 and not (got[0] == "exc" and got[1] == parse[0]):
+                fails.append(("alpha-parse", {"impl": got, "model": parse}))
+            if not (av[0] == "exc" and av[1] == parse[0]):
+                fails.append(("alpha-parse", {"impl": av, "model": parse}))
     # relational oracles on the implementation alone
     _oracles(case, io, fails, rep)
     return fails
